@@ -25,6 +25,9 @@ def problems():
         'linear3': (3, lambda X: 4.0 - X[0] - X[1] - X[2], [stats.norm(), stats.norm(), stats.norm()], np.eye(3), 4.0 / math.sqrt(3)),
         'lognormal': (2, lambda X: X[0] * X[1] - 0.2, [stats.lognorm(0.5), stats.lognorm(0.3)], np.eye(2), None),
         'quadratic': (2, lambda X: 5.0 - X[0] ** 2 - X[1], [stats.norm(), stats.norm()], np.eye(2), None),
+        # limit states with a plateau at zero / integer values: level thresholds that are exactly 0 and tied g values
+        'clipped': (2, lambda X: max(2.0 - (X[0] + X[1]) / math.sqrt(2), 0.0), [stats.norm(), stats.norm()], np.eye(2), None),
+        'integer': (2, lambda X: float(math.floor(2.5 - X[0] - X[1])), [stats.norm(), stats.norm()], np.eye(2), None),
     }
 
 
@@ -115,8 +118,14 @@ def check_run(res, name, N, p0, maxSub, seed, reqs, meta):
 def explore(res, rng, n):
     reqs, meta = [], []
     for i in range(n):
-        name = rng.choice(['linear2', 'linear2', 'linear3', 'lognormal', 'quadratic'])
-        N, p0 = rng.choice([(20, 0.5), (40, 0.25), (50, 0.1), (30, 0.3), (100, 0.3), (64, 0.125), (10, 0.3), (60, 0.2)])
+        name = rng.choice(['linear2', 'linear2', 'linear3', 'lognormal', 'quadratic', 'clipped', 'integer'])
+        if i < 2:
+            name = ['clipped', 'integer'][i]
+        # incl. p0 * N that is not an integer, exactly (7.5, 3.3) or only in binary64 (0.07 * 100 = 7.000000000000001, 0.29 * 100 = 28.999999999999996)
+        N, p0 = rng.choice([(20, 0.5), (40, 0.25), (50, 0.1), (30, 0.3), (100, 0.3), (64, 0.125), (10, 0.3), (60, 0.2),
+                            (100, 0.07), (100, 0.29), (50, 0.15), (25, 0.3), (33, 0.1)])
+        if i in (2, 3):
+            N, p0 = [(100, 0.07), (50, 0.15)][i - 2]
         maxSub = rng.choice([3, 6, 10])
         r = check_run(res, name, N, p0, maxSub, rng.randrange(10 ** 6), reqs, meta)
         if i < 2:
@@ -151,8 +160,8 @@ def statistical(res, rng):
 
 def run(tier, seed):
     res = core.Result(PID, tier, seed)
-    res.rule = ('four limit states (linear-Gaussian 2D/3D, lognormal product, quadratic) x sample sizes / level probabilities incl. '
-                'p0*N*floor(1/p0) < N x seeds; distinct by (problem, N, p0, maxSubsets, seed)')
+    res.rule = ('six limit states (linear-Gaussian 2D/3D, lognormal product, quadratic, clipped at zero, integer-valued) x sample sizes / level probabilities incl. '
+                'p0*N*floor(1/p0) < N and non-integer p0*N x seeds; distinct by (problem, N, p0, maxSubsets, seed)')
     core.prove(res, PID, MODULES, clean=(tier == 'thorough'))
     n = 12 if tier == 'quick' else 300
     rng = random.Random(seed)
